@@ -231,6 +231,8 @@ func runC03(c *Ctx, tier string) {
 	runDictBoundAfterInsert(c, "C03-B1")
 	runBitmapWordCopies(c, "C03-N1")
 	runProjectionPrefix(c, "C03-P1")
+	runSerializeHonoursNulls(c, "C03-U1")
+	runDictOrderTotal(c, "C03-D1")
 	runNilSliceIndex(c, "C03-X1", "vng", "runtime/vcache", "vector", "zio/vngio", "runtime/vam/op", "runtime/vam/expr", "runtime/vam/expr/function", "runtime/vam/expr/agg")
 	// O1
 	if fn := p.Func("(*vng.Writer).finalize"); fn == nil {
